@@ -67,6 +67,21 @@ def cases_beat(r):
             "Correct Metric Level Total": 1.0, "Any Metric Level Continuous": 1.0,
             "Any Metric Level Total": 1.0, "Information gain": 1.0}),
     ]
+    if r.random() < 0.25:
+        # evaluate() with a non-default trim time, beats below 5 s included
+        v = r.choice([0.0, 2.0, 3.5])
+        d = float(x[1] - x[0])
+        pre = []
+        t0 = float(x[0]) - d
+        while t0 >= v + 0.25 and len(pre) < 8:
+            pre.append(t0)
+            t0 -= d
+        x2 = np.array(sorted(pre) + x.tolist())
+        out.append(("beat.evaluate", (x2, x2.copy()), {"min_beat_time": v}, {
+            "F-measure": 1.0, "Cemgil": 1.0, "Cemgil Best Metric Level": 1.0,
+            "P-score": 1.0, "Correct Metric Level Continuous": 1.0,
+            "Correct Metric Level Total": 1.0, "Any Metric Level Continuous": 1.0,
+            "Any Metric Level Total": 1.0, "Information gain": 1.0}))
     if r.random() < 0.1:
         # one or two beats: F-measure and Cemgil are defined (and perfect) already
         a0 = r.randrange(5 * 64, 40 * 64)
@@ -206,6 +221,12 @@ def cases_multipitch(r):
     t, fr = gen.multipitch(r, n_frames=r.randrange(1, 12))
     if not any(f.size for f in fr):
         fr[0] = np.array([440.0])
+    if len(t) >= 2 and r.random() < 0.2:
+        # two consecutive frames sharing a time stamp (stamps rounded to few
+        # decimals): valid, and a copy must still be scored frame by frame
+        k = r.randrange(1, len(t))
+        t = t.copy()
+        t[k] = t[k - 1]
     y = [f.copy() for f in fr]
     kw = tasks.draw_params(r, {"window": [0.5, 0.25, 1.0]})
     exp = [1.0, 1.0, 1.0, 0.0, 0.0, 0.0, 0.0] * 2
